@@ -13,7 +13,9 @@ Definition run_a85enc (fs : list bytes) : res (list bytes) :=
   Ok [encode_85 (field fs 0)].
 Definition run_rledec (fs : list bytes) : res (list bytes) :=
   rmap (fun o => [o]) (run_length_decode (field fs 0)).
-(* fields: predictor colors columns (signed decimals), inflated data, [zlib data: impl only] *)
+(* fields: predictor colors columns bpc (signed decimals), decompressed data; [compressed data: impl only] *)
+Definition params_of (fs : list bytes) (i : nat) : params :=
+  {| p_predictor := Z_of_dec (field fs i); p_colors := Z_of_dec (field fs (i + 1));
+     p_columns := Z_of_dec (field fs (i + 2)); p_bpc := Z_of_dec (field fs (i + 3)); p_early := 1 |}.
 Definition run_unpredict (fs : list bytes) : res (list bytes) :=
-  rmap (fun o => [o])
-    (unpredict (Z_of_dec (field fs 0)) (Z_of_dec (field fs 1)) (Z_of_dec (field fs 2)) (field fs 3)).
+  rmap (fun o => [o]) (unpredict (params_of fs 0) (field fs 4)).
